@@ -74,12 +74,30 @@ def prepare(tier):
     bad = scan_forbidden(files)
     if bad:
         raise KaniError('harness mentions a pointer-carrying enum variant (CBMC union bug): ' + '; '.join(bad))
+    hdir = os.path.join(SCRATCH, 'kani-harness')
+    os.makedirs(hdir, exist_ok=True)
     for f in files:
         tgt = os.path.join(work, f['inject'])
         if not os.path.exists(tgt):
             raise KaniError('lost anchor: %s does not exist' % f['inject'])
+        # harness text is used as is, except that regions between `//@slow-begin` and `//@slow-end` are
+        # blanked in the quick tier (harnesses whose symbolic execution takes minutes run in thorough only)
+        src = open(f['path']).read()
+        if tier != 'thorough':
+            out, skipping = [], False
+            for line in src.split('\n'):
+                if line.strip().startswith('//@slow-begin'):
+                    skipping = True
+                elif line.strip().startswith('//@slow-end'):
+                    skipping = False
+                    out.append('')
+                    continue
+                out.append('' if skipping else line)
+            src = '\n'.join(out)
+        f['gen_path'] = os.path.join(hdir, os.path.basename(f['path']))
+        open(f['gen_path'], 'w').write(src)
         with open(tgt, 'a') as fh:
-            fh.write('\n#[cfg(kani)]\n#[path = "%s"]\nmod %s;\n' % (f['path'], f['mod']))
+            fh.write('\n#[cfg(kani)]\n#[path = "%s"]\nmod %s;\n' % (f['gen_path'], f['mod']))
     return work, target, lock, files
 
 
@@ -116,6 +134,7 @@ def run(tier, filters, timeout_s=None, jobs=None, extra_args=()):
             hid = r['harness_id']
             bad = [c for c in r.get('checks', [])
                    if c['status'] not in ('Success', 'Satisfied', 'Unreachable', 'SUCCESS', 'SATISFIED', 'UNREACHABLE')]
+            bad.sort(key=lambda c: 0 if c['status'].lower() in ('failure', 'unsatisfiable') else 1)
             res['harnesses'][hid] = dict(
                 status=r['status'], duration_ms=r['duration_ms'],
                 checks=len(r.get('checks', [])),
@@ -124,8 +143,8 @@ def run(tier, filters, timeout_s=None, jobs=None, extra_args=()):
                                     line=c.get('location', {}).get('line', ''),
                                     function=c.get('function', '')) for c in bad][:10],
                 error=errs.get(hid, {}),
-                solver=cb.get(hid, {}).get('configuration', {}).get('solver', 'cadical'),
-                solver_s=cb.get(hid, {}).get('cbmc_stats', {}).get('runtime_decision_procedure_s', None),
+                solver=((cb.get(hid) or {}).get('configuration') or {}).get('solver', 'cadical'),
+                solver_s=((cb.get(hid) or {}).get('cbmc_stats') or {}).get('runtime_decision_procedure_s', None),
             )
         res['tools'] = d.get('tools', {})
         res['wall_s'] = time.time() - t0
@@ -191,14 +210,14 @@ def playback(tier, harness_id):
             f = next((f for f in files if f['mod'] == modname), None)
             if f is not None:
                 # the harness function may live in a nested module: add `use` of everything reachable
-                pb_src = open(f['path']).read()
+                pb_src = open(f['gen_path']).read()
                 inner = '::'.join(leaf[leaf.index(modname) + 1:-1])
                 tests_mod = '\n#[cfg(test)]\nmod kani_playback_tests {\n    use super::%s*;\n%s\n}\n' % (
                     (inner + '::') if inner else '', '\n'.join(fail_tests[:1]))
                 pb_path = os.path.join(SCRATCH, 'kani-playback-%s.rs' % modname)
                 open(pb_path, 'w').write(pb_src + tests_mod)
                 tgt = os.path.join(work, f['inject'])
-                s = open(tgt).read().replace('#[path = "%s"]' % f['path'], '#[path = "%s"]' % pb_path)
+                s = open(tgt).read().replace('#[path = "%s"]' % f['gen_path'], '#[path = "%s"]' % pb_path)
                 s = s.replace('#[cfg(kani)]\n#[path = "%s"]' % pb_path, '#[cfg(any(kani, test))]\n#[path = "%s"]' % pb_path)
                 open(tgt, 'w').write(s)
                 tn = re.search(r'fn (kani_concrete_playback_\w+)', fail_tests[0]).group(1)
